@@ -10,7 +10,7 @@ from kern2 import fr_tok
 from remesh import Mesh
 
 SPEC = {
-    "lean_modules": ["Honeycomb.Props.C15", "Honeycomb.Props.C15b", "Honeycomb.Props.C15c"],
+    "lean_modules": ["Honeycomb.Props.C15", "Honeycomb.Props.C15b", "Honeycomb.Props.C15c", "Honeycomb.Props.C15d"],
     "gen": ["anchors"],
     "required_theorems": [
         "C15_swap_preserves_WF", "C15_cutOuter_preserves_WF", "C15_cutInner_preserves_WF", "C15_collapse_preserves_WF",
@@ -39,6 +39,12 @@ SPEC = {
         # the anchor-driven (end point) collapse on interior configurations
         "C15_swap_moves_corners", "C15_cutInner_midpoint_in_final_map", "C15_collapse_endpoint_interior",
         "C15_cutInner_edge_count", "C15_collapse_midpoint_edge_count", "C15_collapse_endpoint_interior_right",
+        # Props/C15d.lean: anchors after the cuts, for every subset of the anchor storages
+        "C15_cutOuter_edge_face_anchors", "C15_cutOuter_vertex_anchors", "C15_cutOuter_other_storages",
+        "C15_cutInner_face_anchors", "C15_cutInner_edge_anchors", "C15_cutInner_other_storages",
+        "C15_collapse_other_storages", "C15_collapse_midpoint_face_anchors", "C15_collapse_endpoint_target",
+        "C15_collapse_midpoint_vertex_count", "C15_cutOuter_anchors", "C15_cutInner_anchors",
+        "C15_cutInner_vertex_anchor_storage_refused",
     ],
     "trusted_base": [
         "Lean 4.33 kernel; axioms propext, Classical.choice, Quot.sound only",
@@ -67,7 +73,8 @@ SPEC = {
         "OUTSIDE THE STATEMENT, observed on every run (the statement only constrains successful calls): (1) cut_inner_edge can never "
         "succeed on a map whose VertexAnchor storage is registered — its first 1-sew (ld, nd1) merges the vertex attributes of the two "
         "brand-new vertices {nd4,nd6} and {nd1,nd3}, both without anchor, i.e. VertexAnchor::merge_from_none = Err(InsufficientData) "
-        "(`grid 2 1 224 ncl 0 0 1 1 1 1` + anchors / `add 6` / `cutin 2 7 8 9 10 11 12` -> err InsufficientData, map unchanged); "
+        "(`grid 2 1 224 ncl 0 0 1 1 1 1` + anchors / `add 6` / `cutin 2 7 8 9 10 11 12` -> err InsufficientData, map unchanged) "
+        "— a THEOREM of the model on arbitrary well-formed maps: C15_cutInner_vertex_anchor_storage_refused; "
         "(2) collapse_edge on a boundary edge of a corner triangle (beta2(b0l) = null and no right side) computes NULL_VERTEX_ID as the "
         "new vertex and then calls is_orbit_orientation_consistent(NULL), which reads the undefined vertex 0 and returns "
         "StmError::Retry: inside atomically_with_err the call waits forever (`grid 2 1 224 ncl 0 0 2 1 1 1` + anchors / `collapse 1` "
@@ -96,9 +103,9 @@ SPEC = {
     "not_proved": [
         "global V/E/F counts on arbitrary meshes: THEOREMS through the iterators for swap (0/0/0: C15_swap_counts), cut_outer_edge "
         "(C15_cutOuter_{vertex,edge,face}_count), cut_inner_edge (C15_cutInner_{vertex,edge,face}_count) and edges / faces of the interior "
-        "midpoint collapse (C15_collapse_midpoint_{edge,face}_count); NOT proved: the vertex count of collapse_edge (-1: false on the "
-        "pinching configurations of D15f, which satisfy the hypotheses of the interior theorems, so it needs a fan hypothesis), and "
-        "every count of the end-point collapse and of boundary configurations: oracle only",
+        "midpoint collapse (C15_collapse_midpoint_{edge,face}_count); the vertex count of the interior midpoint collapse (-1) is a theorem "
+        "under the hypothesis `no vertex is split by the call` (C15_collapse_midpoint_vertex_count; without it the clause is false: "
+        "D15f); NOT proved: every count of the end-point collapse and of boundary configurations: oracle only",
         "`all triangles around the resulting vertex have the same orientation`: the post-check is modelled, compared, and proved STRICT "
         "(C15_collapse_no_flat_triangle: every triangle of the orbit the kernel walks has a non-zero cross product of one sign, "
         "former D15g); that the orbit walked is the whole fan fails on pinched results (D15f): oracle",
@@ -115,8 +122,18 @@ SPEC = {
         "boundary vertices (D15f, replayed by the check, no `decide` witness); a flat triangle at the resulting vertex used to be "
         "accepted (former D15g, fixed in /repo 94962f9): now a theorem (C15_collapse_no_flat_triangle); the old witness is refused "
         "(C15_D15g_regression, and the regression case `fixed-d15g-flat` of the check)",
-        "anchors after cut / collapse (kept or lawfully merged): oracle only, except the second half of an outer cut "
-        "(C15_cutOuter_second_half_anchored, every map; former D15b, /repo 27a7433); FALSE today in the case D15a (witness by `decide`)",
+        "anchors after the CUTS: THEOREMS for every subset of the anchor storages (Props/C15d.lean): every slot of the EdgeAnchor / "
+        "FaceAnchor storages after cut_outer_edge (C15_cutOuter_edge_face_anchors) and cut_inner_edge (C15_cutInner_face_anchors, "
+        "C15_cutInner_edge_anchors), vertex anchors kept and the new vertex anchored after cut_outer_edge "
+        "(C15_cutOuter_vertex_anchors), absent storages untouched (C15_cut{Outer,Inner}_other_storages); the same in words, with the identifiers of the resulting "
+        "map: C15_cutOuter_anchors, C15_cutInner_anchors; no vertex-anchor statement "
+        "for cut_inner_edge: with a VertexAnchor storage it never succeeds (C15_cutInner_vertex_anchor_storage_refused: interior edge "
+        "between different vertices, spare darts without vertex anchor). Anchors after COLLAPSE: the kernel never writes the "
+        "FaceAnchor storage (C15_collapse_other_storages, every map and variant); in the midpoint variant on interior configurations "
+        "every surviving face keeps identifier and anchor (C15_collapse_midpoint_face_anchors); in the end-point variants the "
+        "returned vertex holds position and vertex anchor of the chosen end point (C15_collapse_endpoint_target, every map). NOT "
+        "proved: edge anchors after a collapse (lawful merge of the glued sides) and vertex anchors of the other vertices: oracle; "
+        "face anchors after an end-point collapse are FALSE today in the case D15a (witness by `decide`)",
         "cut: the midpoint at the new vertex's identifier in the FINAL map is a theorem on arbitrary WF maps, any spare numbering, for "
         "cut_outer_edge (C15_cut_midpoint_in_final_map; former D15c, /repo aac3ec9) and for cut_inner_edge "
         "(C15_cutInner_midpoint_in_final_map: end points different vertices, spare darts without vertex value, Vertex2 law)",
